@@ -114,11 +114,7 @@ pub broadcast proof fn axiom_lower_ascii(s: Seq<char>)
     requires forall|i: int| 0 <= i < s.len() ==> (#[trigger] s[i] as u32) < 128,
     ensures #[trigger] lower(s) == ascii_lower(s) {}
 // HeaderValue::to_str: "Yields a &str slice if the HeaderValue only contains visible ASCII chars" (else Err)
-pub uninterp spec fn hv_visible_ascii(v: http::header::HeaderValue) -> bool;
-#[verifier::external_type_specification] #[verifier::external_body]
-pub struct ExToStrError(http::header::ToStrError);
-pub assume_specification [http::header::HeaderValue::to_str] (v: &http::header::HeaderValue) -> (r: std::result::Result<&str, http::header::ToStrError>)
-    ensures r is Ok <==> hv_visible_ascii(*v), r matches Ok(s) ==> s@ == hv_view(*v);
+// (hv_visible_ascii, ToStrError and the specification of HeaderValue::to_str are in contracts/common/http.rs)
 pub assume_specification [str::trim] (s: &str) -> (r: &str)
     ensures r@ == trim(s@);
 pub assume_specification [str::eq_ignore_ascii_case] (a: &str, b: &str) -> (r: bool)
@@ -274,4 +270,12 @@ proof fn lits_claims()
     lemma_vis_concat("{ \""@ + "isRoot"@, "\": \""@);
     lemma_vis_concat("{ \""@ + "isRoot"@ + "\": \""@, "true"@);
     lemma_vis_concat("{ \""@ + "isRoot"@ + "\": \""@ + "true"@, "\"}"@);
+}
+pub assume_specification [http::StatusCode::is_success] (s: &http::StatusCode) -> (r: bool)
+    ensures r == (200 <= status_code(*s) < 300);
+proof fn lits_site_headers()
+    ensures vis("2012-11-30"@), vis("true"@), vis("True "@),
+{
+    reveal_strlit("2012-11-30"); reveal_strlit("true"); reveal_strlit("True ");
+    assert("2012-11-30"@.len() == 10); assert("true"@.len() == 4); assert("True "@.len() == 5);
 }
